@@ -16,7 +16,8 @@ META = dict(
                 'demux / mux / Edfa.__call__ / Multiband_amplifier.__call__ over a chain single-band - two-band - single-band amplifiers '
                 'with symbolic band edges',
     bounds=['k<=3 channels with symbolic frequency/slot/baud (construction)', '5 channels on fixed frequencies, 4 symbolic band edges pairs '
-            '(chain harness)', 'per-channel attributes: label, tx_osnr, tx_power, delta_pdb, baud rate, slot width'],
+            '(chain harness)', 'per-channel attributes: label, tx_osnr, tx_power, delta_pdb, baud rate, slot width',
+            'carrier dict of 2-3 (4 thorough) carriers in every order; merge of 1-3 (4 thorough) band pieces of 2 carriers each in every order'],
     assumptions=['floats as reals', 'amplifier physics stubbed to identity in the channel-set harness (gain/ASE are C04)',
                  'channel frequencies distinct'],
     stubs=['Edfa.propagate -> no-op in the chain harness'],
